@@ -131,7 +131,7 @@ Definition ex_threads : list thread :=
     start metrics_RecordTokenization [7; 300; 0; 1002; 0];
     start metrics_RecordParse [9; 2; 0; 1003; 0; 0] ].
 Definition ex_sched : list nat :=
-  concat (repeat [0; 1; 2; 3; 2; 1; 0]%nat 12).
+  concat (repeat [0; 1; 2; 3; 2; 1; 0]%nat 60).   (* long enough for any reasonable layout of the loops; finished threads stutter *)
 Definition ex_init : mem := fun l => if N.eqb l metrics_pub_MinQuerySize then -1 else 0.
 
 Example ex_hyp : forall t, In t ex_threads -> In (t_secs t) metrics_progs /\ t_si t = 0%nat /\ t_pc t = 0%nat.
